@@ -63,33 +63,58 @@ def rhoOffset : Nat → Nat
 @[inline] def rol32 (x : UInt32) (n : Nat) : UInt32 :=
   (x <<< UInt32.ofNat n) ||| (x >>> UInt32.ofNat (32 - n))
 
-/-- rotation by an offset that may be 0 -/
+/-- rotation of a 64-bit lane by an offset `0 ≤ n < 64` (0: unchanged) -/
 @[inline] def rot64 (x : UInt64) (n : Nat) : UInt64 := if n = 0 then x else rol64 x n
 
+/-- rotation of a 32-bit word by `n mod 32` (0: unchanged) -/
+@[inline] def rot32 (x : UInt32) (n : Nat) : UInt32 := if n % 32 = 0 then x else rol32 x (n % 32)
+
+/-- what a round needs from a lane: xor, and, complement, rotation towards higher bit indices -/
+structure LaneOps (α : Type) where
+  xor : α → α → α
+  and : α → α → α
+  not : α → α
+  rot : α → Nat → α
+
+/-- 64-bit lanes -/
+def ops64 : LaneOps UInt64 := ⟨(· ^^^ ·), (· &&& ·), (~~~ ·), rot64⟩
+
+/-- a lane as the pair (even-indexed bits, odd-indexed bits) of 32-bit words: a rotation by `2k` rotates
+    both words by `k`; a rotation by `2k+1` rotates the odd word by `k+1` into the even place and the
+    even word by `k` into the odd place -/
+def opsPair : LaneOps (UInt32 × UInt32) :=
+  ⟨fun a b => (a.1 ^^^ b.1, a.2 ^^^ b.2), fun a b => (a.1 &&& b.1, a.2 &&& b.2), fun a => (~~~ a.1, ~~~ a.2),
+   fun a n => if n % 2 = 0 then (rot32 a.1 (n / 2), rot32 a.2 (n / 2)) else (rot32 a.2 (n / 2 + 1), rot32 a.1 (n / 2))⟩
+
+variable (O : LaneOps α)
+
 /-- θ: `C[x] = ⊕_y A[x,y]`, `D[x] = C[x-1] ⊕ rot(C[x+1], 1)`, `A'[x,y] = A[x,y] ⊕ D[x]` -/
-def specTheta (s : L25 UInt64) : L25 UInt64 :=
-  let c := fun x => s.get x ^^^ s.get (x + 5) ^^^ s.get (x + 10) ^^^ s.get (x + 15) ^^^ s.get (x + 20)
-  let d := fun x => c ((x + 4) % 5) ^^^ rol64 (c ((x + 1) % 5)) 1
-  L25.ofFn fun i => s.get i ^^^ d (i % 5)
+def gTheta (s : L25 α) : L25 α :=
+  let c := fun x => O.xor (O.xor (O.xor (O.xor (s.get x) (s.get (x + 5))) (s.get (x + 10))) (s.get (x + 15))) (s.get (x + 20))
+  let d := fun x => O.xor (c ((x + 4) % 5)) (O.rot (c ((x + 1) % 5)) 1)
+  L25.ofFn fun i => O.xor (s.get i) (d (i % 5))
 
 /-- ρ and π: `B[y, 2x+3y] = rot(A[x,y], r[x,y])`; for the target lane `(X, Y)`: `x = X + 3Y`, `y = X` -/
-def specRhoPi (s : L25 UInt64) : L25 UInt64 :=
+def gRhoPi (s : L25 α) : L25 α :=
   L25.ofFn fun i =>
     let bx := i % 5; let by_ := i / 5
     let src := (bx + 3 * by_) % 5 + 5 * bx
-    rot64 (s.get src) (rhoOffset src)
+    O.rot (s.get src) (rhoOffset src)
 
 /-- χ: `A'[x,y] = B[x,y] ⊕ (¬B[x+1,y] ∧ B[x+2,y])` -/
-def specChi (s : L25 UInt64) : L25 UInt64 :=
+def gChi (s : L25 α) : L25 α :=
   L25.ofFn fun i =>
     let y := i / 5 * 5
-    s.get i ^^^ (~~~ s.get (y + (i + 1) % 5) &&& s.get (y + (i + 2) % 5))
+    O.xor (s.get i) (O.and (O.not (s.get (y + (i + 1) % 5))) (s.get (y + (i + 2) % 5)))
 
 /-- ι -/
-def specIota (rc : UInt64) (s : L25 UInt64) : L25 UInt64 := { s with l0 := s.l0 ^^^ rc }
+def gIota (rc : α) (s : L25 α) : L25 α := { s with l0 := O.xor s.l0 rc }
 
-/-- one round `Rnd = ι ∘ χ ∘ π ∘ ρ ∘ θ` -/
-def specRound (rc : UInt64) (s : L25 UInt64) : L25 UInt64 := specIota rc (specChi (specRhoPi (specTheta s)))
+/-- one round `Rnd = ι ∘ χ ∘ π ∘ ρ ∘ θ`, for any lane representation -/
+def gRound (rc : α) (s : L25 α) : L25 α := gIota O rc (gChi O (gRhoPi O (gTheta O s)))
+
+/-- the round of FIPS 202 on 64-bit lanes -/
+def specRound (rc : UInt64) (s : L25 UInt64) : L25 UInt64 := gRound ops64 rc s
 
 /-- Keccak-f[1600]: the rounds with the constants `RC[0..23]` in order -/
 def specF (s : L25 UInt64) : L25 UInt64 := Usual.Gen.C05.keccakRC.toList.foldl (fun s rc => specRound rc s) s
